@@ -84,12 +84,14 @@ func (t *SimpleTimer) prepare() bool {
 func (t *SimpleTimer) run() (bool, error) {
 	t.l.Lock()
 	defer t.l.Unlock()
+	verifGate("timer.run.enter", t)
 
 	ctx := t.getCtx()
 
 	if ctx.Err() != nil {
 		return false, ctx.Err()
 	}
+	verifGate("timer.run.checked", t)
 
 	next := t.intervalFunc(t.called + 1)
 
@@ -259,6 +261,7 @@ func (ts *SimpleTimers) iterate(ctx context.Context) error {
 
 		return true
 	})
+	verifGate("timers.iterate.snapshot", ts, timers)
 
 	if len(timers) < 1 {
 		return nil
@@ -279,8 +282,10 @@ func (ts *SimpleTimers) iterate(ctx context.Context) error {
 
 		_ = wk.NewJob(func(context.Context, uint64) error {
 			if keep, err := tr.run(); err != nil || !keep {
+				verifGate("timers.job.remove", ts, tr)
 				_ = ts.removeTimer(tr.id)
 			}
+			verifGate("timers.job.done", ts, tr)
 
 			return nil
 		})
